@@ -164,6 +164,31 @@ def oracle(case: dict) -> Outcome:
         B = fresh()
         _expect_raise(out, "C09.neg.missing_entry", f"entry {victim} of {nm} dropped", KeyError,
                       lambda: B.opt.load_distributed_state_dict(sd, key_to_param=iter(B.named_params())))
+    # (a') a whole sub-tree of entries is missing: every flat key that shares a prefix of depth 1-3 with a victim entry (a block's complete
+    # Kronecker-factor state, a whole block, one tuple of factors) while the parameter's other entries are still there
+    sd = copy.deepcopy(saved[k])
+    keys = sorted(sd["state"][nm])
+    if keys:
+        import json as _json
+
+        def path(kk: Any) -> list:
+            try:
+                v = _json.loads(kk) if isinstance(kk, str) else [kk]
+                return v if isinstance(v, list) else [v]
+            except Exception:  # noqa: BLE001
+                return [kk]
+
+        victim = keys[(pick // 11) % len(keys)]
+        depth = 1 + (pick // 5) % 3
+        pref = path(victim)[:depth]
+        gone = [kk for kk in keys if path(kk)[: len(pref)] == pref]
+        for kk in gone:
+            del sd["state"][nm][kk]
+        if gone:
+            B = fresh()
+            out.classes.append("subtree_dropped_partially" if len(gone) < len(keys) else "subtree_dropped_all_entries")
+            _expect_raise(out, "C09.neg.missing_subtree", f"{len(gone)} entries under {pref} of {nm} dropped", KeyError,
+                          lambda: B.opt.load_distributed_state_dict(sd, key_to_param=iter(B.named_params())))
     # (b) unknown parameter name
     sd = copy.deepcopy(saved[k])
     sd["state"]["no.such.param"] = copy.deepcopy(sd["state"][names[0]])
